@@ -694,6 +694,8 @@ def r01_8(ctx) -> None:
 
 
 def run(ctx) -> None:
+    from .c14 import r14_1 as _r14_1
+    ctx.guard_as("R01.13", _r14_1)  # "valid under the key resolved for it": a kid names the key whose kid EQUALS it (no suffix / prefix / case match)
     from .common import forwarding_discipline
     ctx.guard(forwarding_discipline, "R01.10", ['value', 'payload', 'members', 'member', 'find_key', 'public_key'], 35, "jws")  # arguments are handed on under their own name (generic routing rule, rules/common.py)
     fam = verify_family(ctx.eng)
